@@ -1,4 +1,76 @@
-From Emitter Require Import Lib.Base Model.Broker.
-Theorem C02_placeholder : presenceW = 3869262148.
-Proof. reflexivity. Qed.
-Print Assumptions C02_placeholder.
+(* C02 - An acknowledged subscription gets every matching publish once, until removed.
+   Model: the generic broker of Model/Broker.v (conn.go, service/pubsub, service/link), every client
+   request one step.  The statements hold for ANY subscription index meeting the contract IxSpec
+   (set insertion / removal, lookup = the subscribers holding a matching filter, once each);
+   Spec.BrokerSpec.held_ix meets it by construction, the trie meets it by C01.  The harness runs the
+   trie instance and the specification instance against the real broker on every run. *)
+From Emitter Require Import Lib.Base Model.MsgCodec Model.Channel Model.Key Model.Trie Model.Store Model.Broker
+     Spec.PubSub Spec.BrokerSpec Proofs.BrokerProofs Proofs.BrokerStep.
+
+(* a publish the broker accepted is written exactly once to each connection that holds, at that
+   moment, a subscription whose filter matches - minus the publisher if it excluded itself - and
+   nothing else in the broker moves *)
+Theorem C02_delivery_exact : forall {I} (X : ixops I) abs inv, IxSpec X abs inv ->
+  forall mqtt (b : @broker I) ssid ch payload exclude, inv (b_trie b) ->
+  let b' := deliver X mqtt b ssid ch payload exclude in
+  ext b b'
+  /\ exists tg, b_out b' = b_out b ++ map (fun i => (i, PMsg ch payload)) tg /\ NoDup tg
+     /\ forall i, In i tg <-> exists s f, In (f, s) (abs (b_trie b)) /\ matches mqtt f ssid = true
+                                       /\ conn_of_sub (b_conns b) s 0 = Some i /\ exclude <> Some s.
+Proof. intros I X abs inv HS. exact (delivery_exact X abs inv HS). Qed.
+Print Assumptions C02_delivery_exact.
+
+(* subscribing inserts exactly (filter, subscriber), unsubscribing removes exactly it; a repeated
+   subscribe and an unsubscribe of a filter not held are no-ops (acknowledged, nothing changes) *)
+Theorem C02_subscribe_unsubscribe_exact : forall {I} (X : ixops I) abs inv, IxSpec X abs inv ->
+  forall mqtt (b : @broker I) i c ssid ch, inv (b_trie b) -> get_conn (b_conns b) (N.to_nat i) = Some c ->
+  (has_ctr c ssid = false ->
+     forall p, In p (abs (b_trie (subscribe_ev X b i c ssid ch))) <-> In p (abs (b_trie b)) \/ p = (ssid, cn_sub c))
+  /\ (has_ctr c ssid = true -> subscribe_ev X b i c ssid ch = b)
+  /\ (has_ctr c ssid = true ->
+     forall p, In p (abs (b_trie (unsubscribe_ev X mqtt b i c ssid ch))) <-> In p (abs (b_trie b)) /\ p <> (ssid, cn_sub c))
+  /\ (has_ctr c ssid = false -> unsubscribe_ev X mqtt b i c ssid ch = b).
+Proof.
+  intros I X abs inv HS mqtt b i c ssid ch Hi G.
+  refine (conj _ (conj _ (conj _ _))).
+  - intros H p. destruct (subscribe_ev_effect X b i c ssid ch H) as (T & _). rewrite T.
+    apply (ixs_sub X abs inv HS ssid (cn_sub c) (b_trie b) Hi).
+  - apply subscribe_ev_repeat.
+  - intros H. apply (unsubscribe_ev_held X abs inv HS mqtt b i c ssid ch Hi H G).
+  - apply unsubscribe_ev_not_held.
+Qed.
+Print Assumptions C02_subscribe_unsubscribe_exact.
+
+(* a request that fails parsing or authorization changes nothing and is answered with an error *)
+Theorem C02_failed_request_changes_nothing : forall {I} (X : ixops I) e (b : @broker I) i c mid,
+  get_conn (b_conns b) (N.to_nat i) = Some c ->
+  (forall topic qos b1 st, on_subscribe X e (clear_out b) i c topic = (b1, Some st) ->
+     let r := step X e b i (OSub mid topic qos) in
+     b_trie r = b_trie b /\ b_conns r = b_conns b /\ b_store r = b_store b /\ b_seq r = b_seq b
+     /\ exists notes, b_out r = [(i, PError st mid); (i, PSuback mid [128])] ++ notes)
+  /\ (forall topic b1 st, on_unsubscribe X e (clear_out b) i c topic = (b1, Some st) ->
+     let r := step X e b i (OUnsub mid topic) in
+     b_trie r = b_trie b /\ b_conns r = b_conns b /\ b_store r = b_store b /\ b_seq r = b_seq b
+     /\ exists notes, b_out r = [(i, PError st mid); (i, PUnsuback mid)] ++ notes)
+  /\ (forall retain topic payload b1 st, on_publish X e (clear_out b) i c mid retain topic payload ENone = (b1, Some st) ->
+     let r := step X e b i (OPub mid retain topic payload) in
+     b_trie r = b_trie b /\ b_conns r = b_conns b /\ b_store r = b_store b /\ b_seq r = b_seq b
+     /\ exists notes, b_out r = [(i, PError st mid); (i, PPuback mid)] ++ notes).
+Proof.
+  intros I X e b i c mid G. refine (conj _ (conj _ _)); intros.
+  - eapply failed_subscribe_changes_nothing; eassumption.
+  - eapply failed_unsubscribe_changes_nothing; eassumption.
+  - eapply failed_publish_changes_nothing; eassumption.
+Qed.
+Print Assumptions C02_failed_request_changes_nothing.
+
+(* the specification index meets the contract, so the statements are not vacuous *)
+Theorem C02_spec_index_meets_contract : IxSpec held_ix (fun h => h) (fun _ => True).
+Proof. exact held_ix_spec. Qed.
+Print Assumptions C02_spec_index_meets_contract.
+
+Example C02_nonvacuous :
+  let b := B [([7; 11], 5); ([7; 12], 6)] [Some (Conn 5 [] None true [] []); Some (Conn 6 [] None true [] [])] [] 0 [] [] in
+  b_out (deliver held_ix false b [7; 11; 12] [97] [1; 2] None) = [(0, PMsg [97] [1; 2])]
+  /\ b_out (deliver held_ix false b [7; 11; 12] [97] [1; 2] (Some 5)) = [].
+Proof. vm_compute. split; reflexivity. Qed.
